@@ -95,6 +95,16 @@ def are_joinable(
     if any_symbols:
         return JoinableResult(False, "block2 has symbols referring to it")
 
+    if block2.size:
+        any_end_symbols = any(
+            sym.at_end
+            for sym in cache.reference_cache.get_references(block1)
+        )
+        if any_end_symbols:
+            return JoinableResult(
+                False, "block1 has symbols referring to its end"
+            )
+
     if isinstance(block1, gtirb.CodeBlock):
         assert isinstance(block2, gtirb.CodeBlock)
 
